@@ -36,3 +36,36 @@ Definition enumerated_ok (r : list (pystr * list rj)) (a : list (pystr * pystr))
   forall k v sp, In (k, v) a -> In (k, sp) r -> spec_values sp <> [] -> In v (spec_values sp).
 
 Definition attrs_ok r a : Prop := required_present r a /\ only_listed r a /\ enumerated_ok r a.
+
+(** * The violated constraints, one per constraint (C03: "collecting mode reports one
+    error per violated constraint and fail-fast mode raises for the first") *)
+Inductive aviol : Type :=
+| VRequired (k : pystr)        (* required attribute k is absent *)
+| VUnrecognized (k : pystr)    (* attribute k is present but not in the rule's list *)
+| VEnum (k : pystr).           (* attribute k is enumerated and carries an unlisted value *)
+
+(** declarative: assignment [a] violates constraint [v] of table [r] *)
+Definition violated (r : list (pystr * list rj)) (a : list (pystr * pystr)) (v : aviol) : Prop :=
+  match v with
+  | VRequired k => exists sp, In (k, sp) r /\ spec_required sp = true /\ ~ In k (keys a)
+  | VUnrecognized k => In k (keys a) /\ ~ In k (keys r)
+  | VEnum k => exists x sp, In (k, x) a /\ In (k, sp) r /\ spec_values sp <> [] /\ ~ In x (spec_values sp)
+  end.
+
+(** the order in which they are reported: missing required attributes in table order,
+    then one pass over the node's attributes in node order *)
+Definition attr_violations (r : list (pystr * list rj)) (a : list (pystr * pystr)) : list aviol :=
+  flat_map (fun p => if spec_required (snd p) && negb (smem (fst p) (keys a)) then [VRequired (fst p)] else []) r ++
+  flat_map (fun p => match assoc (fst p) r with
+                     | None => [VUnrecognized (fst p)]
+                     | Some sp => match spec_values sp with
+                                  | [] => []
+                                  | vals => if smem (snd p) vals then [] else [VEnum (fst p)]
+                                  end
+                     end) a.
+
+(** assignments derived from an assignment: omit attribute k / set k := v *)
+Definition omit (k : pystr) (a : list (pystr * pystr)) : list (pystr * pystr) :=
+  filter (fun p => negb (pystr_eqb (fst p) k)) a.
+Definition assign (k v : pystr) (a : list (pystr * pystr)) : list (pystr * pystr) :=
+  (k, v) :: omit k a.
